@@ -248,7 +248,14 @@ def one(mid, relfile, text, props, budget, listed, pool, full):
     d, dst = mutants.scratch_copy()
     try:
         open(os.path.join(dst, relfile), "w", encoding="utf-8").write(text)
-        ok, tail = mutants.baseline_ok(dst)
+        # the suite takes 3 s: a mutant that makes it loop for a minute is dead, too
+        try:
+            r = subprocess.run([PY, "-m", "pytest", "-q", "-x", "-p", "no:cacheprovider", "--timeout=60"], cwd=dst,
+                               env=dict(os.environ, PYTHONPATH=dst, PYTHONDONTWRITEBYTECODE="1", TQDM_DISABLE="1"),
+                               stdout=subprocess.DEVNULL, stderr=subprocess.DEVNULL, timeout=150)
+            ok = r.returncode == 0
+        except subprocess.TimeoutExpired:
+            ok = False
         if not ok:
             return dict(id=mid, file=relfile, status="killed-by-tests", s=round(time.time() - t0, 1))
         caught, detail, crashed = screen(dst, d, props, budget, listed, pool)
